@@ -20,6 +20,7 @@ import (
 	"net/netip"
 	"slices"
 	"strings"
+	"sync"
 	"time"
 
 	"github.com/mdlayher/corerad/internal/system"
@@ -40,6 +41,12 @@ type Plugin interface {
 	// Apply applies Plugin data to the input RA.
 	Apply(ra *ndp.RouterAdvertisement) error
 }
+
+// prepareMu serializes Prepare, which updates the dynamic state of a Plugin
+// whenever its interface is (re)initialized, with the Apply and String calls
+// made concurrently from other goroutines by the metrics collector and the
+// debug API, which share the same Plugins.
+var prepareMu sync.RWMutex
 
 // CaptivePortal configures a NDP Captive Portal option.
 type CaptivePortal struct {
@@ -166,6 +173,9 @@ func (l *LLA) Name() string { return "lla" }
 
 // String implements Plugin.
 func (l *LLA) String() string {
+	prepareMu.RLock()
+	defer prepareMu.RUnlock()
+
 	var s string
 	if l.Addr != nil {
 		s = l.Addr.String()
@@ -178,12 +188,18 @@ func (l *LLA) String() string {
 
 // Prepare implements Plugin.
 func (l *LLA) Prepare(ifi *net.Interface) error {
+	prepareMu.Lock()
+	defer prepareMu.Unlock()
+
 	l.Addr = ifi.HardwareAddr
 	return nil
 }
 
 // Apply implements Plugin.
 func (l *LLA) Apply(ra *ndp.RouterAdvertisement) error {
+	prepareMu.RLock()
+	defer prepareMu.RUnlock()
+
 	// Only apply the option if Addr is set. It would not be set for
 	// point-to-point links, for example.
 	if l.Addr == nil {
@@ -250,6 +266,9 @@ func (p *Prefix) Name() string { return "prefix" }
 
 // String implements Plugin.
 func (p *Prefix) String() string {
+	prepareMu.RLock()
+	defer prepareMu.RUnlock()
+
 	prefix := p.Prefix.String()
 	if p.Auto {
 		// Make a best-effort to note the current prefixes if the user is using
@@ -289,6 +308,9 @@ func (p *Prefix) String() string {
 
 // Prepare implements Plugin.
 func (p *Prefix) Prepare(ifi *net.Interface) error {
+	prepareMu.Lock()
+	defer prepareMu.Unlock()
+
 	// Use the real system time.
 	p.TimeNow = time.Now
 
@@ -301,6 +323,9 @@ func (p *Prefix) Prepare(ifi *net.Interface) error {
 
 // Apply implements Plugin.
 func (p *Prefix) Apply(ra *ndp.RouterAdvertisement) error {
+	prepareMu.RLock()
+	defer prepareMu.RUnlock()
+
 	if !p.Auto {
 		// User specified an exact prefix so apply it directly.
 		p.apply([]netip.Prefix{p.Prefix}, ra)
@@ -455,6 +480,9 @@ func (*Route) Name() string { return "route" }
 
 // String implements Plugin.
 func (r *Route) String() string {
+	prepareMu.RLock()
+	defer prepareMu.RUnlock()
+
 	prefix := r.Prefix.String()
 	if r.Auto {
 		// Make a best-effort to note the current routes if the user is using
@@ -486,6 +514,9 @@ func (r *Route) String() string {
 
 // Prepare implements Plugin.
 func (r *Route) Prepare(_ *net.Interface) error {
+	prepareMu.Lock()
+	defer prepareMu.Unlock()
+
 	// Use the real system time.
 	r.TimeNow = time.Now
 
@@ -497,6 +528,9 @@ func (r *Route) Prepare(_ *net.Interface) error {
 
 // Apply implements Plugin.
 func (r *Route) Apply(ra *ndp.RouterAdvertisement) error {
+	prepareMu.RLock()
+	defer prepareMu.RUnlock()
+
 	if !r.Auto {
 		// User specified an exact route so apply it directly.
 		r.apply([]netip.Prefix{r.Prefix}, ra)
@@ -628,6 +662,9 @@ func (r *RDNSS) Name() string { return "rdnss" }
 
 // String implements Plugin.
 func (r *RDNSS) String() string {
+	prepareMu.RLock()
+	defer prepareMu.RUnlock()
+
 	var servers []string
 	if r.Auto {
 		// Make a best-effort to note the current server if the user is using
@@ -655,6 +692,9 @@ func (r *RDNSS) String() string {
 
 // Prepare implements Plugin.
 func (r *RDNSS) Prepare(ifi *net.Interface) error {
+	prepareMu.Lock()
+	defer prepareMu.Unlock()
+
 	// Fetch addresses from the specified interface whenever invoked.
 	a := system.NewAddresser()
 	r.Addrs = func() ([]system.IP, error) { return a.AddressesByIndex(ifi.Index) }
@@ -664,6 +704,9 @@ func (r *RDNSS) Prepare(ifi *net.Interface) error {
 
 // Apply implements Plugin.
 func (r *RDNSS) Apply(ra *ndp.RouterAdvertisement) error {
+	prepareMu.RLock()
+	defer prepareMu.RUnlock()
+
 	if !r.Auto {
 		// User specified exact servers so apply them directly.
 		r.apply(r.Servers, ra)
